@@ -21,7 +21,7 @@ struct Worst {
     e: u32,
 }
 
-fn sweep(f: u32, is_abs: bool, mode: &[&str]) -> (u64, Vec<(String, Worst)>, f64) {
+fn sweep(f: u32, is_abs: bool, mode: &[&str]) -> (u64, Vec<(String, Worst)>, Vec<(String, Worst)>) {
     let isas = available_isas();
     let (total, log2n, seed): (u64, u32, u64) = if mode[0] == "all" {
         (1u64 << 32, 32, 0)
@@ -33,14 +33,15 @@ fn sweep(f: u32, is_abs: bool, mode: &[&str]) -> (u64, Vec<(String, Worst)>, f64
     let nchunks = (total + CH - 1) / CH;
     let next = AtomicU64::new(0);
     let nthreads = std::thread::available_parallelism().map_or(4, |n| n.get());
-    let results: Vec<(Vec<Worst>, f64)> = std::thread::scope(|s| {
+    let results: Vec<(Vec<Worst>, Vec<Worst>)> = std::thread::scope(|s| {
         let hs: Vec<_> = (0..nthreads)
             .map(|_| {
                 s.spawn(|| {
                     let mut worst = vec![Worst { metric: -1.0, x: 0, a: 0, e: 0 }; isas.len()];
-                    let mut worst64 = 0f64;
+                    let mut worst2 = vec![Worst { metric: -1.0, x: 0, a: 0, e: 0 }; isas.len()];
                     let mut xs = vec![0f32; CH as usize];
                     let mut es = vec![0f32; CH as usize];
+                    let mut e2 = vec![0f32; CH as usize];
                     let mut buf = vec![0f32; CH as usize];
                     loop {
                         let c = next.fetch_add(1, Ordering::SeqCst);
@@ -61,6 +62,7 @@ fn sweep(f: u32, is_abs: bool, mode: &[&str]) -> (u64, Vec<(String, Worst)>, f64
                             };
                             xs[i] = f32::from_bits(bits);
                             es[i] = reference(f, xs[i]);
+                            e2[i] = reference_std32(f, xs[i]);
                         }
                         for (k, isa) in isas.iter().enumerate() {
                             buf[..n].copy_from_slice(&xs[..n]);
@@ -71,51 +73,57 @@ fn sweep(f: u32, is_abs: bool, mode: &[&str]) -> (u64, Vec<(String, Worst)>, f64
                                 if m > w.metric {
                                     *w = Worst { metric: m, x: xs[i].to_bits(), a: buf[i].to_bits(), e: es[i].to_bits() };
                                 }
-                                if k + 1 == isas.len() && log2n < 32 {
-                                    // distance of the preferred ISA to the f64 reference rounded once (information)
-                                    let e64 = reference64(f, xs[i]);
-                                    let m64 = if is_abs { abs_metric(buf[i], e64) } else { ulp_metric(buf[i], e64) };
-                                    if m64 > worst64 && m64.is_finite() {
-                                        worst64 = m64;
-                                    }
+                                let m2 = if is_abs { abs_metric(buf[i], e2[i]) } else { ulp_metric(buf[i], e2[i]) };
+                                let w2 = &mut worst2[k];
+                                if m2 > w2.metric {
+                                    *w2 = Worst { metric: m2, x: xs[i].to_bits(), a: buf[i].to_bits(), e: e2[i].to_bits() };
                                 }
                             }
                         }
                     }
-                    (worst, worst64)
+                    (worst, worst2)
                 })
             })
             .collect();
         hs.into_iter().map(|h| h.join().unwrap()).collect()
     });
-    let mut out = vec![];
-    for (k, isa) in isas.iter().enumerate() {
-        let mut w = Worst { metric: -1.0, x: 0, a: 0, e: 0 };
-        for (r, _) in &results {
-            // deterministic choice among equal metrics: smallest input pattern
-            if r[k].metric > w.metric || (r[k].metric == w.metric && r[k].x < w.x) {
-                w = r[k];
+    let pick = |sel: &dyn Fn(&(Vec<Worst>, Vec<Worst>)) -> &Vec<Worst>| -> Vec<(String, Worst)> {
+        let mut out = vec![];
+        for (k, isa) in isas.iter().enumerate() {
+            let mut w = Worst { metric: -1.0, x: 0, a: 0, e: 0 };
+            for r in &results {
+                let r = sel(r);
+                // deterministic choice among equal metrics: smallest input pattern
+                if r[k].metric > w.metric || (r[k].metric == w.metric && r[k].x < w.x) {
+                    w = r[k];
+                }
             }
+            out.push((isa.to_string(), w));
         }
-        out.push((isa.to_string(), w));
-    }
-    let w64 = results.iter().fold(0f64, |m, (_, v)| m.max(*v));
-    (total, out, w64)
+        out
+    };
+    (total, pick(&|r| &r.0), pick(&|r| &r.1))
 }
 
 fn sweep_line(p: &[&str]) -> (String, String) {
     let is_abs = p[0] == "abs";
     let f: u32 = p[1].parse().unwrap();
     let (num, den) = (p[2], p[3]);
-    let (count, ws, w64) = sweep(f, is_abs, &p[4..]);
-    let terms: Vec<String> = ws
-        .iter()
-        .map(|(isa, w)| format!("{{| w_isa := {}; w_count := {}; w_x := {}; w_actual := {}; w_expected := {} |}}", isa_code(isa), count, w.x, w.a, w.e))
-        .collect();
-    let info: Vec<String> = ws.iter().map(|(isa, w)| format!("{}:{:.6e}@{:08x}", isa, w.metric, w.x)).collect();
+    let (count, ws, ws2) = sweep(f, is_abs, &p[4..]);
+    let term = |ws: &Vec<(String, Worst)>| -> String {
+        let terms: Vec<String> = ws
+            .iter()
+            .map(|(isa, w)| format!("{{| w_isa := {}; w_count := {}; w_x := {}; w_actual := {}; w_expected := {} |}}", isa_code(isa), count, w.x, w.a, w.e))
+            .collect();
+        format!("({} {} {} {} [{}])", if is_abs { "CAbs" } else { "CUlp" }, f, num, den, terms.join("; "))
+    };
+    let info = |ws: &Vec<(String, Worst)>| -> String {
+        ws.iter().map(|(isa, w)| format!("{}:{:.6e}@{:08x}", isa, w.metric, w.x)).collect::<Vec<_>>().join(",")
+    };
+    // primary case (vs the f64 reference rounded once) @@ secondary case (vs the platform's f32 routines)
     (
-        format!("{}-{}-{}|{}|f64ref:{:.6e}", p[0], FN_NAMES[f as usize], p[4], info.join(","), w64),
-        format!("{} {} {} {} [{}]", if is_abs { "CAbs" } else { "CUlp" }, f, num, den, terms.join("; ")),
+        format!("{}-{}-{}|{}|std32:{}", p[0], FN_NAMES[f as usize], p[4], info(&ws), info(&ws2)),
+        format!("{}@@{}", term(&ws), term(&ws2)),
     )
 }
 
@@ -153,7 +161,7 @@ fn softmax_line(p: &[&str]) -> (String, String) {
                 0 => u * 5.0,
                 1 => u * 80.0,                 // large spread: most terms underflow
                 2 => 1000.0 + u,               // large offset
-                3 => if i % 7 == 0 { f32::NEG_INFINITY } else { u * 3.0 }, // masked positions
+                3 => if i % 7 == 6 { f32::NEG_INFINITY } else { u * 3.0 }, // masked positions (never all of them: an all -inf input has no softmax)
                 4 => 0.25,                     // all equal
                 5 => u * 1e-3,
                 6 => -3.0e38 + (i as f32) * 1e32, // near f32::MIN
@@ -179,7 +187,7 @@ fn exec_line(line: &str) -> String {
         "softmax" => softmax_line(&p),
         _ => panic!("unknown input line {:?}", line),
     };
-    format!("{}\t{}\t({})", tag, line, term)
+    if term.starts_with('(') { format!("{}\t{}\t{}", tag, line, term) } else { format!("{}\t{}\t({})", tag, line, term) }
 }
 
 fn main() {
@@ -198,6 +206,41 @@ fn main() {
             }
         }
         Some("isas") => println!("{}", available_isas().join(" ")),
+        // diagnostic (not used by the check): `diag <fn> <isa> <threshold> <abs|ulp>` counts the inputs above a threshold
+        Some("diag") => {
+            let f: u32 = args[2].parse().unwrap();
+            let isa = args[3].clone();
+            let th: f64 = args[4].parse().unwrap();
+            let is_abs = args[5] == "abs";
+            let (mut cnt, mut minabs, mut cnt64) = (0u64, f32::INFINITY, 0u64);
+            let mut xs = vec![0f32; 1 << 16];
+            let mut buf = vec![0f32; 1 << 16];
+            for c in 0..(1u64 << 16) {
+                for i in 0..(1usize << 16) {
+                    xs[i] = f32::from_bits(((c << 16) as u32) | i as u32);
+                }
+                if !xs[0].is_finite() || xs[0].abs() > 1e6 || xs[0].abs() < 1e-3 {
+                    continue;
+                }
+                buf.copy_from_slice(&xs);
+                run_fn(&isa, f, &mut buf);
+                for i in 0..(1usize << 16) {
+                    let (e, e64) = (reference_std32(f, xs[i]), reference(f, xs[i]));
+                    let m = if is_abs { abs_metric(buf[i], e) } else { ulp_metric(buf[i], e) };
+                    let m64 = if is_abs { abs_metric(buf[i], e64) } else { ulp_metric(buf[i], e64) };
+                    if m > th {
+                        cnt += 1;
+                        if xs[i].abs() < minabs {
+                            minabs = xs[i].abs();
+                        }
+                    }
+                    if m64 > th {
+                        cnt64 += 1;
+                    }
+                }
+            }
+            println!("fn {} isa {} > {}: {} inputs vs std-f32 (min |x| = {}), {} vs f64 reference", f, isa, th, cnt, minabs, cnt64);
+        }
         _ => eprintln!("usage: c19 exec | isas"),
     }
 }
